@@ -223,6 +223,8 @@ def menu(w, rich):
         for tname in sorted(w.ts):
             ev.append(("add_virtual", n, tname))
             ev.append(("add_copy", n, tname))
+        ev.append(("make_norm", n, "*"))
+        ev.append(("make_norm", n, None))
         ev.append(("copy", n))
         ev.append(("vcopy", n))
         ev.append(("pickle", n))
@@ -309,7 +311,10 @@ def menu(w, rich):
         ev.append(("combine_and", a, b))
         ev.append(("combine_or", a, b))
         ev.append(("ior", a, b))
+        ev.append(("combine", a, b, True))
         if rich:
+            ev.append(("combine", a, b, False))
+            ev.append(("tn_from_list", a, b))
             ev.append(("iand", a, b))
             ev.append(("add_tn", a, b, True, False))
             ev.append(("add_tn", a, b, False, False))
@@ -341,7 +346,8 @@ def _unshared(w, t, ix):
             raise Precondition("label %s is shared" % ix)
 
 
-COMBINE = {"combine_and", "combine_or", "ior", "iand", "add_tn"}
+COMBINE = {"combine_and", "combine_or", "ior", "iand", "add_tn", "combine", "tn_from_list", "make_norm"}
+NEWNET = {"combine_and", "combine_or", "combine", "tn_from_list", "make_norm"}
 
 
 def apply(w, e):
@@ -542,6 +548,14 @@ def apply(w, e):
         qtn.new_bond(w.ts[e[1]], w.ts[e[2]])
     elif k == "t_and":
         T[w.newname()] = w.ts[e[1]] & w.ts[e[2]]
+    elif k == "make_norm":
+        if not T[e[1]].tensor_map:
+            raise Precondition("empty network")
+        T[w.newname()] = T[e[1]].make_norm(mangle_append=e[2])
+    elif k == "combine":
+        T[w.newname()] = T[e[1]].combine(T[e[2]], virtual=e[3], check_collisions=True)
+    elif k == "tn_from_list":
+        T[w.newname()] = qtn.TensorNetwork([T[e[1]], T[e[2]]])
     elif k == "combine_and":
         T[w.newname()] = T[e[1]] & T[e[2]]
     elif k == "combine_or":
@@ -561,7 +575,8 @@ def _combine_pre(w, e):
     """Record, before a combination, each operand's tensors in order with
     their labels and the inner/outer classification by a fresh scan."""
     out = {}
-    for side, n in (("A", e[1]), ("B", e[2])):
+    second = e[1] if e[0] == "make_norm" else e[2]
+    for side, n in (("A", e[1]), ("B", second)):
         tn = w.tns[n]
         _, _, cnt = scan_network(tn)
         out[side] = {
@@ -571,7 +586,8 @@ def _combine_pre(w, e):
             "same_objs": None,
         }
     a_ids = {id(t) for t in w.tns[e[1]].tensor_map.values()}
-    out["overlap"] = any(id(t) in a_ids for t in w.tns[e[2]].tensor_map.values())
+    # make_norm combines two internal copies: they never share tensor objects
+    out["overlap"] = e[0] != "make_norm" and any(id(t) in a_ids for t in w.tns[second].tensor_map.values())
     return out
 
 
@@ -580,7 +596,7 @@ def _combine_check(w, e, pre):
     an outer label (C02 statement, last sentence)."""
     k = e[0]
     res = w.tns[e[1]] if k in ("ior", "iand", "add_tn") else w.tns[sorted(w.tns, key=lambda s: (len(s), s))[-1]]
-    if k in ("combine_and", "combine_or"):
+    if k in NEWNET:
         # the new network was stored under the newest M<i> name
         ms = [n for n in w.tns if n.startswith("M")]
         res = w.tns[sorted(ms, key=lambda s: int(s[1:]))[-1]]
@@ -706,7 +722,43 @@ class C02Case(seq.Case):
         return any(len(h) > 1 for _, h in _all_tensor_objects(w).values())
 
 
+_SLOTS = {}  # id(network) -> (slot, weakref)
+
+
+def install_hash_seam():
+    """Own the one source of nondeterminism of the owner registry: it is keyed
+    on hash(network), which is the object's address, and addresses are reused
+    after a network dies in an allocator-dependent way.  The harness gives
+    every TensorNetwork a small integer hash taken from the lowest slot whose
+    previous holder is dead - i.e. ids are ALWAYS reused as early as possible.
+    Every behaviour under this seam is a behaviour CPython may show (an id may
+    be reused as soon as its object is gone), and it is deterministic."""
+    import weakref
+
+    import quimb.tensor as qtn
+
+    if getattr(qtn.TensorNetwork, "_verif_hash_seam", False):
+        return
+
+    def _hash(self):
+        ent = _SLOTS.get(id(self))
+        if ent is not None and ent[1]() is self:
+            return ent[0]
+        used = {sl for k, (sl, r) in list(_SLOTS.items()) if r() is not None}
+        for k in [k for k, (sl, r) in _SLOTS.items() if r() is None]:
+            del _SLOTS[k]
+        slot = 0
+        while slot in used:
+            slot += 1
+        _SLOTS[id(self)] = (slot, weakref.ref(self))
+        return slot
+
+    qtn.TensorNetwork.__hash__ = _hash
+    qtn.TensorNetwork._verif_hash_seam = True
+
+
 def make_case(spec):
+    install_hash_seam()
     return C02Case(spec)
 
 
@@ -918,12 +970,12 @@ def run_oset(ctx, depth):
 # --------------------------------------------------------------------------- #
 
 PLAN = {
-    # recipe: (rich menu?, depth quick, depth thorough)
-    "W1": (True, 2, 3),
-    "W2": (False, 2, 3),
-    "W3": (True, 2, 3),
-    "W4": (False, 3, 4),
-    "W5": (True, 2, 3),
+    # recipe: (rich menu quick?, rich menu thorough?, depth quick, depth thorough)
+    "W1": (True, True, 2, 3),
+    "W2": (True, True, 2, 3),
+    "W3": (True, True, 2, 3),
+    "W4": (False, False, 2, 3),
+    "W5": (True, True, 2, 3),
 }
 
 
@@ -938,11 +990,13 @@ def run(ctx):
         "array data never influences bookkeeping, so one data fill per tensor is enough",
         "events are offered only when their evident precondition holds (sizes equal for a rename onto an existing label, unique tensor for item access)",
         "identical canonical keys have identical futures (keys contain every field the maps are computed from)",
+        "hash(network) (an address) is replaced by a harness-side slot number that is reused as early as possible after a network dies - a legal, worst-case and deterministic id-reuse pattern",
     ]
     thorough = ctx.tier == "thorough"
-    ctx.bounds = {"depth": {k: (v[2] if thorough else v[1]) for k, v in PLAN.items()}, "oset_depth": 5 if thorough else 4}
+    ctx.bounds = {"depth": {k: (v[3] if thorough else v[2]) for k, v in PLAN.items()}, "oset_depth": 5 if thorough else 4}
     run_oset(ctx, 5 if thorough else 4)
-    for recipe, (rich, dq, dt) in PLAN.items():
+    for recipe, (richq, richt, dq, dt) in PLAN.items():
+        rich = richt if thorough else richq
         if "only" in ctx.opts and ctx.opts["only"] != recipe:
             continue
         depth = int(ctx.opts.get("depth", dt if thorough else dq))
